@@ -200,6 +200,21 @@ func runC13(c *fw.Case) {
 					rejected++
 				}
 			}
+		case !isGov && c.R.Intn(2) == 0:
+			// the message server itself, without the stateless checks in front of it (how a
+			// wrapping message or another module would call it): the authority check belongs
+			// to the server, an empty or malformed authority is "another signer" too
+			herr := n.HandlerExec(msg)
+			if p := asPanic(herr); p != nil {
+				c.ViolateD("C20/gov-update-panic", p.Stack, "%s panicked in the message server: %s", label, short(p.Value, 200))
+				continue
+			}
+			nonGov++
+			c.Count("message_server_calls_with_foreign_authority", 1)
+			if herr == nil {
+				c.ViolateD("C13/non-authority-accepted", map[string]string{"msg": label, "authority": authority, "route": "message server"}, "%s with authority %q was accepted by the message server", label, authority)
+			}
+			rejected++
 		default:
 			_, _, gerr := n.GovExec(msg)
 			if p := asPanic(gerr); p != nil {
